@@ -48,7 +48,7 @@ pub fn main(tier: Option<&str>) {
         "universe of 64 addresses (8 peers, 8 chunk, 8 transaction, 4 register, 4 scratchpad addresses and each of these 32 again as a raw \
          record key): all 4096 ordered pairs for the distance value, symmetry, zero-iff-equal and typed==raw; all 1024 subsets of a 10-peer \
          list x 5 targets (two of them equal to a listed peer's address, typed and raw) for the sorters; every range bound in {d-1,d,d+1 : d pairwise distance} + {0,MAX} for the range filters; every \
-         requested count 0..=12; the number of records a real record store counts within every range bound d-1/d+1 (after writes, updates, a removal) for closest-peer selection. Non-trivial = the two addresses differ.",
+         requested count 0..=12; the number of records a real record store counts within every range bound d-1/d+1 (after writes, updates, a removal) for closest-peer selection; the replication fetcher's full-node bound at each of 6 ranked keys x {single key / six-key list, new / held in another version, in flight when the bound arrives}. Non-trivial = the two addresses differ.",
     );
     run.assume("256-bit space covered through this universe only; reference = SHA-256 (sha2 crate) of the address bytes, XOR, big-endian");
     let uni = universe();
@@ -333,6 +333,66 @@ pub fn main(tier: Option<&str>) {
             drop(rig);
             let _ = std::fs::remove_dir_all(&root);
         });
+    }
+    // 7. the replication fetcher's full-node bound ("nothing farther than the farthest held record") filters exactly as the
+    //    integer does: with the bound at key f, an advertised key — new, or held in another version — is taken iff its
+    //    distance integer is <= f's (so f itself still is), from single-key and from multi-key lists alike; and entries that
+    //    are in flight when the bound arrives survive iff their distance is <= f's
+    {
+        use ant_networking::verif_hooks::VerifFetcher;
+        use ant_protocol::storage::RecordType;
+        use std::collections::{BTreeSet, HashMap};
+        let me = rigs::fixtures::peer_id(1);
+        let holder = rigs::fixtures::peer_id(2);
+        let keys = crate::store_rig::ranked_keys(me, 6, "c11-fetcher");
+        let me_bytes = NetworkAddress::from_peer(me).as_bytes();
+        let d: Vec<U256> = keys.iter().map(|k| u(&xor_distance(&me_bytes, k.as_ref()))).collect();
+        let a = |i: usize| NetworkAddress::from_record_key(&keys[i]);
+        let (v1, v2) = (RecordType::NonChunk(xor_name::XorName([1; 32])), RecordType::NonChunk(xor_name::XorName([2; 32])));
+        let tracked = |f: &VerifFetcher| -> BTreeSet<usize> {
+            f.to_be_fetched().into_iter().chain(f.on_going_fetches()).filter_map(|(k, _, _, _)| keys.iter().position(|x| *x == k)).collect()
+        };
+        for f in 0..keys.len() {
+            for mode in ["single key, not held", "single key, held in another version", "six-key list, nothing held", "six-key list, all held in another version", "in flight when the bound arrives"] {
+                let (tx, _rx) = tokio::sync::mpsc::channel(1000);
+                let mut fetcher = VerifFetcher::new(me, tx);
+                let want: BTreeSet<usize> = (0..keys.len()).filter(|k| d[*k] <= d[f]).collect();
+                let held_other: HashMap<libp2p::kad::RecordKey, (NetworkAddress, RecordType)> = (0..keys.len()).map(|k| (keys[k].clone(), (a(k), v1.clone()))).collect();
+                let none: HashMap<libp2p::kad::RecordKey, (NetworkAddress, RecordType)> = HashMap::new();
+                let got: BTreeSet<usize> = crate::c08::with_ctx(|| {
+                    let mut got = BTreeSet::new();
+                    match mode {
+                        "in flight when the bound arrives" => {
+                            let _ = fetcher.add_keys(holder, (0..keys.len()).map(|k| (a(k), v2.clone())).collect(), &none);
+                            fetcher.set_farthest_on_full(Some(keys[f].clone()));
+                            got = tracked(&fetcher);
+                        }
+                        m if m.starts_with("single") => {
+                            fetcher.set_farthest_on_full(Some(keys[f].clone()));
+                            for k in 0..keys.len() {
+                                let _ = fetcher.add_keys(holder, vec![(a(k), v2.clone())], if m.contains("held") { &held_other } else { &none });
+                            }
+                            got = tracked(&fetcher);
+                        }
+                        m => {
+                            fetcher.set_farthest_on_full(Some(keys[f].clone()));
+                            let _ = fetcher.add_keys(holder, (0..keys.len()).map(|k| (a(k), v2.clone())).collect(), if m.contains("all held") { &held_other } else { &none });
+                            got = tracked(&fetcher);
+                        }
+                    }
+                    got
+                });
+                run.case(format!("fetcher-bound:{f}:{mode}").as_bytes(), true);
+                if got != want {
+                    run.violation(
+                        "range-filter",
+                        "fetcher-full-node-bound",
+                        format!("bound at the distance of k{f} ({mode}): the fetcher tracks {got:?}, by the distance integer the keys not farther than k{f} are {want:?}"),
+                        json!({"op": "fetcher-full-node-bound", "bound_at_rank": f, "mode": mode}),
+                    );
+                }
+            }
+        }
     }
     run.finish();
 }
